@@ -274,6 +274,29 @@ def authc_templates():
     ]
 
 
+def bad_blobs():
+    ed = R.string(b"ssh-ed25519")
+    rsa = R.string(b"ssh-rsa")
+    ec = R.string(b"ecdsa-sha2-nistp256") + R.string(b"nistp256")
+    return [
+        (b"ssh-ed25519", ed + R.string(b"\x01" * 31)),
+        (b"ssh-ed25519", ed + R.string(b"\x01" * 33)),
+        (b"ssh-ed25519", ed + R.string(b"")),
+        (b"ssh-ed25519", ed),
+        (b"ssh-ed25519", R.string(b"ssh-ed25519\xff") + R.string(b"\x01" * 32)),
+        (b"rsa-sha2-512", rsa + R.mpint(0) + R.mpint(0)),
+        (b"rsa-sha2-256", rsa + R.mpint(65537) + R.mpint(1)),
+        (b"ssh-rsa", rsa + R.mpint(-3) + R.mpint(-(1 << 1023))),
+        (b"rsa-sha2-512", rsa + R.mpint(65537)),
+        (b"ecdsa-sha2-nistp256", ec + R.string(EC_POINT_256[:40])),
+        (b"ecdsa-sha2-nistp256", ec + R.string(b"\x04" + b"\xff" * 64)),
+        (b"ecdsa-sha2-nistp256", ec + R.string(b"\x02" + b"\x01" * 32)),
+        (b"ecdsa-sha2-nistp256", R.string(b"ecdsa-sha2-nistp256") + R.string(b"nistp384") + R.string(EC_POINT_256)),
+        (b"ecdsa-sha2-nistp256", R.string(b"ecdsa-sha2-nistp256") + R.string(b"nist\xff256") + R.string(EC_POINT_256)),
+        (b"ecdsa-sha2-nistp384", R.string(b"ecdsa-sha2-nistp384") + R.string(b"nistp384") + R.string(EC_POINT_256)),
+    ]
+
+
 def auths_templates():
     ed = _blob("ed25519")
     rsa = _blob("rsa1024")
@@ -298,6 +321,10 @@ def auths_templates():
         (61, [("u", 1), ("s", b"response")]),
         (61, [("u", 0)]),
     ]
+    # structurally valid requests whose key blob is degenerate inside (right type tag, bad numbers/lengths/points)
+    for alg, blob in bad_blobs():
+        T.append((50, [U, S, ("s", b"publickey"), ("B", 0), ("s", alg), ("s", blob)]))
+        T.append((50, [U, S, ("s", b"publickey"), ("B", 1), ("s", alg), ("s", blob), ("s", _sigblob(alg))]))
     # connection-layer traffic before authentication
     T += [(t, f) for t, f in post_templates("server", 0) if 80 <= t <= 100]
     return T
